@@ -36,6 +36,8 @@ const SHAPES = {
   arrElAs:{ src: "={[(x as any), (dyn)!, ['m1']]}", value: (e) => e.bound.x, arg: (e) => e.bound.dyn, mods: ['m1'], array: true, ts: true },
 };
 const CO_ATTRS = ['id', 'clsD', 'sp1', 'onClick1', 'key'];
+// only in the small contexts: a v-models list (rewritten into v-model attributes before anything else is looked at)
+const CO_EXTRA_SRC = { vmodels: "v-models={[[mv, 'mm']]}" };
 const CO_CHILDREN = ['none', 'ta', 'bx', 'el'];
 const SECOND = { none: null, before: 'before', after: 'after', sameBefore: 'sameBefore', sameAfter: 'sameAfter' };
 const HOSTS = ['div', 'Comp'];
@@ -69,7 +71,7 @@ function* directives(full) {
 function* contexts(full, extra) {
   const maxAttrs = full ? 2 : 1;
   // the small contexts also take an attribute whose value is a bare JSX element (`jb=<b/>`: lowered by re-entering the element code)
-  const CO = extra ? CO_ATTRS.concat(['jsxBare', 'jsxval']) : CO_ATTRS;
+  const CO = extra ? CO_ATTRS.concat(['jsxBare', 'jsxval', 'vmodels']) : CO_ATTRS;
   for (const seq of sequences(CO.length, maxAttrs, { distinct: true })) {
     const attrs = seq.map((i) => CO[i]);
     for (let pos = 0; pos <= attrs.length; pos++) for (const ch of (full ? CO_CHILDREN : ['none', 'bx'])) for (const second of Object.keys(SECOND)) {
@@ -81,6 +83,14 @@ function* contexts(full, extra) {
 function spaces(tier) {
   const thorough = tier === 'thorough';
   return [
+    {
+      name: 'D:v-models-neighbours',
+      bounds: { note: 'a directive between / around a spread and a v-models list (the list is rewritten into v-model attributes by position before the element is lowered)', co_attributes: ['sp1', 'sp2', 'vmodels', 'id'], hosts: HOSTS },
+      *gen() {
+        const pool = ['sp1', 'sp2', 'vmodels', 'id'];
+        for (const host of HOSTS) for (const d of directives(false)) if (!d.special && d.mods !== 'ab' && ['x', 'arrArg', 'absent'].includes(d.shape)) for (const a of pool) for (const b of pool) if (a !== b && (a === 'vmodels' || b === 'vmodels')) for (let pos = 0; pos <= 2; pos++) yield { host, d, k: { attrs: [a, b], pos, ch: 'none', second: 'none' } };
+      },
+    },
     {
       name: 'D:full-grammar×small-contexts',
       bounds: { names: Object.keys(NAMES), arg: [false, true], modifiers: Object.keys(MODS), value_shapes: Object.keys(SHAPES), hosts: HOSTS, contexts: thorough ? 'co-attributes ≤2 of 5 at every position × children × second directive' : 'co-attributes ≤1 × position × {no child, {x}} × second directive' },
@@ -95,7 +105,7 @@ function spaces(tier) {
 }
 
 function render(c, withDir) {
-  const parts = c.k.attrs.map((a) => E.ATTRS[a].src);
+  const parts = c.k.attrs.map((a) => CO_EXTRA_SRC[a] || E.ATTRS[a].src);
   const ins = [];
   if (withDir) {
     const same = c.d.special ? 'v-bar={y}' : `${c.d.name}:other={y}`; // a second use of the very same directive
@@ -143,7 +153,9 @@ function expectedBindings(c, env, alt) {
 function judge(c, resps) {
   const r = resps[0];
   if (r.parse_error) return { engineError: 'generated case does not parse: ' + r.parse_error };
-  if (r.panic || r.died || r.hang || !r.eval_js) return { skip: true };
+  // a well-formed input of this space for which the transform panics or kills its process has no output that could satisfy the property
+  if (r.panic || r.died) return { viol: [{ clause: 'transform-failed', diff: r.panic ? 'panic' : 'process-died', msg: r.panic ? `panic in ${r.panic.stage}: ${r.panic.msg}` : 'the transform killed its process' }], obs: 'transform-failed' };
+  if (r.hang || !r.eval_js) return { skip: true };
   const env = E.makeEnv();
   const ctx = { names: env.names, flags: false };
   const viol = [];
@@ -157,7 +169,8 @@ function judge(c, resps) {
     obs = stable(o);
     // bindings
     const eb = canonValue(expectedBindings(c, env), ctx, []);
-    const got = (o && o.dirs) || [];
+    // bindings contributed by a v-models / v-model co-attribute are C05's business
+    const got = ((o && o.dirs) || []).filter((b) => !/^vue:vModel/.test(String(b.dir)));
     // the value of a value-less directive is not specified: mask it at the directive's own position only
     eb.forEach((x, i) => { for (const k of ['value', 'arg', 'modifiers']) if (x[k] === '«unjudged»' && got[i]) got[i][k] = '«unjudged»'; });
     let d = diff(eb, got);
